@@ -517,6 +517,33 @@ def run(ctx):
     tree = make_state_tree(sh, rng, [0])
     with ctx.case('state', i, dict(nodes=n, shape=sh, labeling=lab, paths=[repr(p) for p, _ in state_paths(tree)][:12]), nontrivial=True):
       check_state_apis(ctx, tree, rng)
+  # a - b for two INDEPENDENT states: their structures may disagree (a leaf in one where the other has a sub-state); the law is
+  # stated on paths: a - b keeps exactly the leaf paths of a that are not leaf paths of b
+  from flax import nnx
+  from flax.nnx import statelib
+  pool = [make_state_tree(sh, ctx.rng('state.pair.tree', k), [0]) for k, (n, sh, lab) in enumerate(scases[:: max(1, len(scases) // 24)])]
+  pairs = [(a, b) for a in range(len(pool)) for b in range(len(pool)) if a != b]
+  for i, (ia, ib) in ctx.items(pairs, 'state.pair'):
+    ta, tb = pool[ia], pool[ib]
+    if not (is_map(ta) and is_map(tb)):
+      continue
+    pa, pb = dict(state_paths(ta)), dict(state_paths(tb))
+    # same key kind on every level is required for flattening (int and str keys cannot be sorted together)
+    kinds = {type(k) for p in list(pa) + list(pb) for k in p[:1]}
+    if len(kinds) > 1:
+      continue
+    disagree = any(q[:len(p)] == p and len(q) > len(p) for p in pa for q in pb) or any(q[:len(p)] == p and len(q) > len(p) for p in pb for q in pa)
+    with ctx.case('state.pair', i, dict(a=[repr(p) for p in pa][:8], b=[repr(p) for p in pb][:8], structures_disagree=disagree), nontrivial=True):
+      sa, sb = nnx.State(ta), nnx.State(tb)
+      want = {p: v for p, v in pa.items() if p not in pb}
+      for api, fn in (('diff', lambda: statelib.diff(sa, sb)), ('sub', lambda: _quiet(lambda: sa - sb))):
+        ctx.op('State.' + api)
+        try:
+          got = fn()
+        except TypeError as e:
+          ctx.event('note.state.pair:unsortable_keys')   # mixed key kinds deeper down
+          break
+        check_flat_equals(ctx, 'state.diff:independent_states', got, want, extra=api)
   for i, (name, tree) in ctx.items(real_graph_states(ctx), 'state.real'):
     with ctx.case('state.real', i, name):
       check_state_apis(ctx, _plain(tree), ctx.rng('real'))
